@@ -65,6 +65,12 @@ def run(run, ix, tier):
                 noeffect_seen[(f, norm(st))] = st
             for node, v in ev.returns:
                 problems = []
+                M = H.PLATFORMS[plat]['modulus']
+                if name in ('mpf_hash', 'mpq.__hash__') and (v.lo < -(M - 1) or v.hi > M - 1) \
+                        and not (v.lo < lo or v.hi > hi):
+                    problems.append('result range %r is not reduced modulo the hash modulus '
+                                    '2^%d-1: the built-in hash of the equal int/float is always '
+                                    'smaller in magnitude than the modulus' % (v, H.PLATFORMS[plat]['HASH_BITS']))
                 if v.lo < lo or v.hi > hi:
                     problems.append('result range %r exceeds the signed %d-bit hash range; CPython '
                                     're-hashes such a value, so it differs from the built-in hash of '
